@@ -128,7 +128,9 @@ def BaseMove (s s' : CSt) (e : CEv) : Prop :=
     s'.ct.length = s.ct.length + (if appendsThread be then 1 else 0) ∧
     (∀ a, be ≠ .invHook a) ∧ (∀ a, be ≠ .selfRelSwap a) ∧ (∀ v x, be ≠ .probe v x) ∧ (∀ B, be ≠ .quiesce B)) ∨
   (∃ a op, e = .inv a op ∧ step s.b (.invHook a) = some s'.b ∧ s'.ct = s.ct ++ [some { op := op }]) ∨
-  (∃ a, step s.b (.selfRelSwap a) = some s'.b ∧ CEv.obs e = none ∧ s'.ct.length = s.ct.length) ∨
+  (∃ a, step s.b (.selfRelSwap a) = some s'.b ∧ CEv.obs e = none ∧ s'.ct.length = s.ct.length ∧
+    (e = .snap a ∨ e = .check a ∨ e = .recheck a ∨ e = .waitCancel a ∨ e = .await a ∨ e = .awaitCancel a ∨
+      e = .goRel a)) ∨
   (s'.b = s.b ∧ s'.ct.length = s.ct.length ∧ (∀ be, e ≠ .base be) ∧ (∀ a op, e ≠ .inv a op)) ∨
   (∃ a v x k pc live flag self told c, e = .ret a v x ∧ getCon s a = some c ∧
     s.b.th[a]? = some (TS.ref k pc live flag self told) ∧
@@ -150,7 +152,9 @@ theorem cstep_base (s s' : CSt) (e : CEv) (hs : cstep s e = some s') : BaseMove 
   have same : s'.b = s.b → s'.ct.length = s.ct.length → (∀ be, e ≠ .base be) → (∀ a op, e ≠ .inv a op) →
       BaseMove s s' e := fun h1 h2 h3 h4 => Or.inr (Or.inr (Or.inr (Or.inl ⟨h1, h2, h3, h4⟩)))
   have swap : ∀ a, step s.b (.selfRelSwap a) = some s'.b → CEv.obs e = none → s'.ct.length = s.ct.length →
-      BaseMove s s' e := fun a h1 h2 h3 => Or.inr (Or.inr (Or.inl ⟨a, h1, h2, h3⟩))
+      (e = .snap a ∨ e = .check a ∨ e = .recheck a ∨ e = .waitCancel a ∨ e = .await a ∨ e = .awaitCancel a ∨
+        e = .goRel a) →
+      BaseMove s s' e := fun a h1 h2 h3 h4 => Or.inr (Or.inr (Or.inl ⟨a, h1, h2, h3, h4⟩))
   cases e with
   | base be =>
     left
@@ -238,7 +242,7 @@ theorem cstep_base (s s' : CSt) (e : CEv) (hs : cstep s e = some s') : BaseMove 
       · split at hs <;> simp at hs <;> subst hs <;>
           exact same rfl (by simp [setCon]) (by simp) (by simp)
       · obtain ⟨h1, h2⟩ := exitRel_move s s' a _ 0 c.ce hs
-        exact swap a h1 rfl h2
+        exact swap a h1 rfl h2 (Or.inl rfl)
   | watch a =>
     simp only [cstep] at hs
     cases hc : getCon s a with
@@ -276,7 +280,7 @@ theorem cstep_base (s s' : CSt) (e : CEv) (hs : cstep s e = some s') : BaseMove 
       split at hs <;> try simp at hs
       split at hs
       · obtain ⟨h1, h2⟩ := exitRel_move s s' a c 0 9 hs
-        exact swap a h1 rfl h2
+        exact swap a h1 rfl h2 (Or.inr (Or.inl rfl))
       · simp at hs; subst hs
         exact same rfl (by simp [setCon]) (by simp) (by simp)
   | recheck a =>
@@ -289,7 +293,7 @@ theorem cstep_base (s s' : CSt) (e : CEv) (hs : cstep s e = some s') : BaseMove 
       rename_i r n ch hpc
       split at hs
       · obtain ⟨h1, h2⟩ := exitRel_move s s' a c 0 r hs
-        exact swap a h1 rfl h2
+        exact swap a h1 rfl h2 (Or.inr (Or.inr (Or.inl rfl)))
       · simp at hs; subst hs
         exact same rfl (by simp [setCon]) (by simp) (by simp)
   | waitCancel a =>
@@ -300,7 +304,7 @@ theorem cstep_base (s s' : CSt) (e : CEv) (hs : cstep s e = some s') : BaseMove 
       simp only [hc] at hs
       split at hs <;> try simp at hs
       obtain ⟨h1, h2⟩ := exitRel_move s s' a c 0 9 hs.2
-      exact swap a h1 rfl h2
+      exact swap a h1 rfl h2 (Or.inr (Or.inr (Or.inr (Or.inl rfl))))
   | await a =>
     simp only [cstep] at hs
     cases hc : getCon s a with
@@ -314,7 +318,7 @@ theorem cstep_base (s s' : CSt) (e : CEv) (hs : cstep s e = some s') : BaseMove 
       · simp at hs; subst hs
         exact same rfl (by simp [setCon]) (by simp) (by simp)
       · obtain ⟨h1, h2⟩ := exitRel_move s s' a c v e hs
-        exact swap a h1 rfl h2
+        exact swap a h1 rfl h2 (Or.inr (Or.inr (Or.inr (Or.inr (Or.inl rfl)))))
   | awaitCancel a =>
     simp only [cstep] at hs
     cases hc : getCon s a with
@@ -323,7 +327,7 @@ theorem cstep_base (s s' : CSt) (e : CEv) (hs : cstep s e = some s') : BaseMove 
       simp only [hc] at hs
       split at hs <;> try simp at hs
       obtain ⟨h1, h2⟩ := exitRel_move s s' a c 0 9 hs
-      exact swap a h1 rfl h2
+      exact swap a h1 rfl h2 (Or.inr (Or.inr (Or.inr (Or.inr (Or.inr (Or.inl rfl))))))
   | ret a v e =>
     simp only [cstep] at hs
     cases hc : getCon s a with
@@ -357,7 +361,7 @@ theorem cstep_base (s s' : CSt) (e : CEv) (hs : cstep s e = some s') : BaseMove 
       | none => simp [hst] at hs
       | some b' =>
         simp [hst] at hs; subst hs
-        exact swap a hst rfl (by simp [setCon])
+        exact swap a hst rfl (by simp [setCon]) (Or.inr (Or.inr (Or.inr (Or.inr (Or.inr (Or.inr rfl))))))
   | goCb a =>
     simp only [cstep] at hs
     cases hc : getCon s a with
@@ -410,7 +414,7 @@ theorem calign_step (s s' : CSt) (e : CEv) (h : CAlign s) (hs : cstep s e = some
   obtain ⟨hlen, hth⟩ := h
   have hframe := cstep_frame s s' e hs
   rcases cstep_base s s' e hs with ⟨be, he, hst, hct, n1, _, _, _⟩ | ⟨a0, op, he, hst, hct⟩ |
-      ⟨a0, hst, _, hct⟩ | ⟨hb, hct, n1, n2⟩ | ⟨a0, v, x, k, pc, live, flag, self, told, c0, he, hc0, hth0, hb, hct⟩
+      ⟨a0, hst, _, hct, _⟩ | ⟨hb, hct, n1, n2⟩ | ⟨a0, v, x, k, pc, live, flag, self, told, c0, he, hc0, hth0, hb, hct⟩
   · -- a base event
     refine ⟨?_, ?_⟩
     · rw [hct, th_length_step s.b s'.b be hst, hlen]
